@@ -27,6 +27,7 @@ CONSTANTS Peers,        \* names of the peers that may connect
           Rates,        \* set of rate values the stats timer may report
           FrameKinds,   \* frame kinds the (adversarial) remote peers may send in this configuration
           BFMenu,       \* the piece sets a Bitfield frame may carry in this configuration
+          Own0,         \* pieces owned and stored from the start (lets small configurations exercise uploads)
           HS0           \* TRUE: connections start with the handshake exchange already done (configurations
                         \*       that are not about C08/C11 skip it to reach deeper histories)
 
@@ -94,13 +95,13 @@ HaveSet == {p \in Pieces : st[p].k = "H"}
 UnchokedNum == Cardinality({k \in Conn : ~mp[k].amCh /\ ~mp[k].opt})
 
 -----------------------------------------------------------------------------
-Init == /\ st = [p \in Pieces |-> [k |-> "M", n |-> 0]]
+Init == /\ st = [p \in Pieces |-> [k |-> IF p \in Own0 THEN "H" ELSE "M", n |-> 0]]
         /\ mp = [k \in {} |-> NewPeer]
         /\ round = 0
         /\ mq = <<>>
         /\ h = [k \in Peers |-> DeadH]
         /\ bq = [k \in Peers |-> <<>>]
-        /\ stored = {}
+        /\ stored = Own0
         /\ sent = [k |-> NoConn, f |-> <<>>]
         /\ wire = [k \in Peers |-> [hs |-> FALSE, ch |-> "C"]]
         /\ panic = FALSE
